@@ -95,6 +95,12 @@ type Scenario struct {
 	// order; vsched.LibFirst = the environment acts as late as possible; a vsched.Sticky
 	// suffix makes departures sticky (delay bounding).
 	Policies []string
+	// Focus, when not empty, restricts the departures that are explored to those that involve
+	// the thread whose name starts with it: leaving it while it would continue, or running it
+	// where another thread would. The search is then exhaustive over "where does this one thread
+	// fall in the otherwise canonical order" (up to the bound), a much smaller space than all
+	// departures; say so in the rule text of a check that uses it.
+	Focus string
 	// Finish runs after all threads finished and the scheduler was deactivated and the
 	// system settled: final-state oracle and orderly shutdown.
 	Finish func(e *Env)
@@ -317,6 +323,9 @@ func Explore(c *vfw.Ctx, t *testing.T, sc Scenario, bound int) Stats {
 		}
 		for i := len(prefix); i < len(r.Trace); i++ {
 			for alt := 1; alt < len(r.Trace[i].Enabled); alt++ {
+				if !focused(sc.Focus, r.Trace[i].Enabled, alt) {
+					continue
+				}
 				np := make([]int, i+1)
 				for j := 0; j < i; j++ {
 					np[j] = r.Trace[j].Chosen
@@ -352,6 +361,9 @@ func Explore(c *vfw.Ctx, t *testing.T, sc Scenario, bound int) Stats {
 			k := 0
 			for i := 0; i < len(root.Trace); i++ {
 				for alt := 1; alt < len(root.Trace[i].Enabled); alt++ {
+					if !focused(sc.Focus, root.Trace[i].Enabled, alt) {
+						continue
+					}
 					mine := c.Shards <= 1 || k%c.Shards == c.Shard
 					k++
 					if !mine {
@@ -405,6 +417,14 @@ func Explore(c *vfw.Ctx, t *testing.T, sc Scenario, bound int) Stats {
 	c.Add("pruned_ineffective_select:"+sc.Name, int64(st.Pruned))
 	c.Set("max_decisions_"+sc.Name, st.MaxDecisions)
 	return st
+}
+
+// focused reports whether alternative alt of a decision involves the focus thread.
+func focused(focus string, enabled []string, alt int) bool {
+	if focus == "" {
+		return true
+	}
+	return strings.HasPrefix(enabled[0], focus) || strings.HasPrefix(enabled[alt], focus)
 }
 
 func isPolicy(d string) bool {
